@@ -11,24 +11,50 @@ fn show(xs: &[i64]) -> String {
    if xs.len() <= 40 { format!("{xs:?}") } else { format!("{:?}.. ({} values)", &xs[..12], xs.len()) }
 }
 
-pub fn check_all(xs: &[i64], p: f64, filtered: bool) -> Result<(), String> {
+pub const SHAPES: [&str; 7] = [
+   "exact",
+   "filter (0, Some(n))",
+   "exact half then filtered half (n/2, Some(n))",
+   "one exact then filtered rest (1, Some(n))",
+   "peeked filter (1, Some(n))",
+   "exact then a tail with an unbounded hint (n, None)",
+   "filtered half then exact half (n - n/2, Some(n))",
+];
+
+/// The same multiset handed over through iterators with different (always truthful) size hints: exact; lower bound 0;
+/// a positive lower bound below the true length; no upper bound.
+fn shaped<'a, T: 'a>(xs: &'a [T], shape: u8) -> Box<dyn Iterator<Item = &'a T> + 'a> {
+   let n = xs.len();
+   match shape {
+      0 => Box::new(xs.iter()),
+      1 => Box::new(xs.iter().filter(|_| true)),
+      2 => Box::new(xs[..n / 2].iter().chain(xs[n / 2..].iter().filter(|_| true))),
+      3 => Box::new(xs[..n.min(1)].iter().chain(xs[n.min(1)..].iter().filter(|_| true))),
+      4 => {
+         let mut it = xs.iter().filter(|_| true).peekable();
+         let _ = it.peek();
+         Box::new(it)
+      },
+      5 => Box::new(xs.iter().chain(std::iter::repeat(()).take_while(|_| false).flat_map(move |_| xs[..0].iter()))),
+      _ => Box::new(xs[..n / 2].iter().filter(|_| true).chain(xs[n / 2..].iter())),
+   }
+}
+
+pub fn check_all(xs: &[i64], p: f64, shape: u8) -> Result<(), String> {
    let mut sorted = xs.to_vec();
    sorted.sort();
    let n = xs.len();
-   // iterators with exact and without exact size hints
+   let shape = shape % SHAPES.len() as u8;
+   let filtered = SHAPES[shape as usize];
    macro_rules! it {
       () => {{
-         let b: Box<dyn Iterator<Item = (&i64,)>> = if filtered {
-            Box::new(xs.iter().filter(|_| true).map(|x| (x,)))
-         } else {
-            Box::new(xs.iter().map(|x| (x,)))
-         };
+         let b: Box<dyn Iterator<Item = (&i64,)>> = Box::new(shaped(xs, shape).map(|x| (x,)));
          b
       }};
    }
    macro_rules! unit_it {
       () => {{
-         let b: Box<dyn Iterator<Item = ()>> = if filtered { Box::new(xs.iter().filter(|_| true).map(|_| ())) } else { Box::new(xs.iter().map(|_| ())) };
+         let b: Box<dyn Iterator<Item = ()>> = Box::new(shaped(xs, shape).map(|_| ()));
          b
       }};
    }
@@ -46,10 +72,10 @@ pub fn check_all(xs: &[i64], p: f64, filtered: bool) -> Result<(), String> {
    }
    let got: Vec<usize> = catch(|| count(unit_it!()).collect()).map_err(|e| format!("count panicked: {e}"))?;
    if got != vec![n] {
-      return Err(format!("count over {n} tuples (filtered iterator: {filtered}) = {got:?}"));
+      return Err(format!("count over {n} tuples (iterator: {filtered}) = {got:?}"));
    }
    let small: Vec<i32> = xs.iter().map(|x| (*x % 1000) as i32).collect();
-   let got: Vec<f64> = catch(|| mean(small.iter().map(|x| (x,))).collect()).map_err(|e| format!("mean panicked: {e}"))?;
+   let got: Vec<f64> = catch(|| mean(shaped(&small, shape).map(|x| (x,))).collect()).map_err(|e| format!("mean panicked: {e}"))?;
    let want: Vec<f64> = if n == 0 { vec![] } else { vec![small.iter().map(|x| *x as i64).sum::<i64>() as f64 / n as f64] };
    if got != want {
       return Err(format!("mean over {n} values {:?}{} = {got:?}, expected {want:?}", &small[..n.min(12)], if n > 12 { ".." } else { "" }));
@@ -98,7 +124,7 @@ pub fn run(a: &Args, rep: &mut Report) {
       6 => 0.0f64..=100.0,
       4 => (0u32..=20, 1u32..=20, -1i32..=1).prop_map(|(k, len, e)| ((k.min(len) as f64) * 100.0 / len as f64 + e as f64 * 1e-9).clamp(0.0, 100.0)),
    ];
-   let strat = (xs, p, any::<bool>());
+   let strat = (xs, p, prop_oneof![3 => Just(0u8), 7 => 1u8..SHAPES.len() as u8]);
    let n = std::cell::Cell::new(0u64);
    let nontrivial = std::cell::Cell::new(0u64);
    let dist = std::cell::RefCell::new(std::collections::BTreeMap::<String, u64>::new());
@@ -116,13 +142,11 @@ pub fn run(a: &Args, rep: &mut Report) {
       if p == 100.0 {
          *dist.borrow_mut().entry("p=100".into()).or_insert(0) += 1;
       }
-      if filtered {
-         *dist.borrow_mut().entry("iterator_without_exact_size_hint".into()).or_insert(0) += 1;
-      }
+      *dist.borrow_mut().entry(format!("iterator={}", SHAPES[filtered as usize])).or_insert(0) += 1;
       if len >= 2 && (dup || boundary) {
          nontrivial.set(nontrivial.get() + 1);
          if samples.borrow().len() < 3 {
-            samples.borrow_mut().push(serde_json::json!({"values": xs.iter().take(12).collect::<Vec<_>>(), "len": len, "p": p, "filtered_iterator": filtered}));
+            samples.borrow_mut().push(serde_json::json!({"values": xs.iter().take(12).collect::<Vec<_>>(), "len": len, "p": p, "iterator": SHAPES[filtered as usize]}));
          }
       }
       check_all(&xs, p, filtered).map_err(TestCaseError::fail)
@@ -138,7 +162,7 @@ pub fn run(a: &Args, rep: &mut Report) {
    for xs in [vec![0i64], vec![3, 1], vec![5, 4, 3, 2, 1]] {
       for p in [100.0, 0.0, 99.999999, 50.0] {
          rep.evaluations += 1;
-         if let Err(e) = check_all(&xs, p, false) {
+         if let Err(e) = check_all(&xs, p, 0) {
             rep.violation(serde_json::json!({"failure": e, "regression": "KF-19"}));
          }
       }
